@@ -13,15 +13,30 @@ class PostBroken(Exception):
     pass
 
 
+RAISE = False   # record-only by default: the monitored code's behaviour is left unchanged
+LOG = os.environ.get("VERIF_CONTRACT_LOG")     # append-only file: forked pool workers report too
+
+
+def _log(rec):
+    if LOG:
+        import json
+        try:
+            fd = os.open(LOG, os.O_WRONLY | os.O_CREAT | os.O_APPEND, 0o644)
+            os.write(fd, (json.dumps(rec) + "\n").encode())
+            os.close(fd)
+        except OSError:
+            pass
+
+
 def _cnt(k):
     COUNTS[k] = COUNTS.get(k, 0) + 1
-
-
-RAISE = False   # record-only by default: the monitored code's behaviour is left unchanged
+    if LOG and COUNTS[k] % 50 == 1:
+        _log({"count": k, "n": COUNTS[k], "pid": os.getpid()})
 
 
 def _fail(name, detail):
     FAILS.append({"contract": name, "detail": str(detail)[:500]})
+    _log({"fail": name, "detail": str(detail)[:500], "pid": os.getpid()})
     return not RAISE
 
 
